@@ -157,6 +157,16 @@ theorem adjacency_valid (D : Nat → Nat → Nat) (hD : ∀ i j, D i j ≤ 1) (i
     adjacency D i j = adjacency D j i ∧ adjacency D i i = 0 ∧ adjacency D i j ≤ 1 :=
   ⟨adjacency_symm D i j, adjacency_diag D i, adjacency_le_one D hD i j⟩
 
+/-- `rand_F2`: the array returned is the first raw draw that is not rejected; with `not_zero` it is not all-zero, with `not_one` not all-one
+— **both** when both flags are set — and every earlier draw was rejected -/
+theorem rand_F2_valid (nz no : Bool) (draws : List (List Nat)) (r : List Nat) (k : Nat) (h : f2Result nz no draws = some (r, k)) :
+    (nz = true → ¬ (r.all (· == 0) = true)) ∧ (no = true → ¬ (r.all (· == 1) = true)) ∧ draws[k - 1]? = some r := by
+  obtain ⟨h1, _, h3, _⟩ := f2Result_spec nz no draws r k h
+  simp only [f2Rejected, Bool.or_eq_false_iff, Bool.and_eq_false_iff] at h1
+  refine ⟨?_, ?_, h3⟩
+  · intro hz hall; rcases h1.1 with h | h <;> simp_all
+  · intro ho hall; rcases h1.2 with h | h <;> simp_all
+
 /-- the hypotheses are satisfiable: the identity is unitary, so its sign-fixed version is -/
 example : toMat 2 2 (signFix (fun i j => if i = j then 1 else 0) fun _ => -3) ∈ Matrix.unitaryGroup (Fin 2) ℂ := by
   apply haar_unitary_signFix
